@@ -7,8 +7,8 @@ Written from the property statement, not from the code: every scope is a total f
 find the innermost declaration along the parent chain; `setdefault`, `pop` return the value like a Python mapping;
 `clone` keeps content and (unless overridden) parent; re-parenting sets the one parent a scope has.
 
-`abs` maps a concrete state of the model to a specification state; `KnownSt` / `KnownOut` are the decidable
-classes of (state, op) pairs on which the unchanged code is known to deviate (see notes/C12.md).
+`abs` maps a concrete state of the model to a specification state.  (Before the `fix:` commits the code deviated on
+four decidable classes of (state, op) pairs; see `LokiModel/Findings/C12.lean` and notes/C12.md.)
 -/
 namespace LokiModel.C12
 
@@ -196,62 +196,6 @@ def specRun (a : ASt) : List Op → ASt × List Out
     let rr := specRun r.1 ops
     (rr.1, r.2 :: rr.2)
 
-/-! ## known-finding classes (decidable predicates on state and op) -/
-
-/-- `symtab-del-pop-spelling`: `del` / `pop` with a spelling that is not the stored (folded) key of a present entry -/
-def KnownDelPop (s : St) (op : Op) : Bool :=
-  match op with
-  | .del i k | .pop i k | .popd i k =>
-    match s.tabs[i]? with
-    | some t => k != fold k && (alookup (fold k) t.ents).isSome
-    | none => false
-  | _ => false
-
-/-- `symtab-clone-drops-empty-parent`: `clone()` without `parent=` of a table whose parent table is empty -/
-def KnownClone (s : St) (op : Op) : Bool :=
-  match op with
-  | .clone i .inherit =>
-    match s.tabs[i]? with
-    | some t =>
-      match t.parent with
-      | some p => match s.tabs[p]? with
-        | some pt => pt.ents.isEmpty
-        | none => true
-      | none => false
-    | none => false
-  | _ => false
-
-/-- `scope-reset-parent-none-stale`: `_reset_parent(None)` on a scope whose table has a parent -/
-def KnownReparent (s : St) (op : Op) : Bool :=
-  match op with
-  | .reparent i none =>
-    match s.tabs[i]? with
-    | some t => t.isScope && t.parent.isSome
-    | none => false
-  | _ => false
-
-/-- `symtab-setdefault-returns-none` -/
-def KnownSetdefault (op : Op) : Bool :=
-  match op with
-  | .setdefault _ _ _ => true
-  | _ => false
-
-/-- classes in which the state after the op deviates from the specification -/
-def KnownSt (s : St) (op : Op) : Bool := KnownDelPop s op || KnownClone s op || KnownReparent s op
-
-/-- classes in which the output of the op deviates -/
-def KnownOut (s : St) (op : Op) : Bool := KnownSt s op || KnownSetdefault op
-
-/-- no op of the history falls in a state-deviating class (evaluated along the run) -/
-def KnownFree (s : St) : List Op → Bool
-  | [] => true
-  | op :: ops => !KnownSt s op && KnownFree (step s op).1 ops
-
-/-- outputs of a history with the outputs of `setdefault` ops masked -/
-def maskOuts : List Op → List Out → List Out
-  | op :: ops, o :: os => (if KnownSetdefault op then Out.unit else o) :: maskOuts ops os
-  | _, _ => []
-
 /-! ## invariant of reachable states -/
 
 def EntsOk (e : List (Name × Nat)) : Prop := (∀ kv ∈ e, fold kv.1 = kv.1) ∧ (e.map Prod.fst).Nodup
@@ -302,20 +246,5 @@ def dspecRun (kind : DKind) (m : AMap) : List DOp → AMap × List Out
     (rr.1, r.2 :: rr.2)
 
 def dabs (d : DSt) : AMap := fun n => alookup n d
-
-/-- `cidict-del-pop-spelling` (ordered) / `cidefaultdict-raw-key` (default dict): the op uses a key as spelled and the
-spelling is not the lower-cased one -/
-def DKnown (kind : DKind) (d : DSt) (op : DOp) : Bool :=
-  match op with
-  | .del k | .pop k | .popd k => k != lower k && (alookup (lower k) d).isSome
-  | .setdefault k _ => kind == .dflt && k != lower k
-  | .update kvs => kind == .dflt && kvs.any (fun kv => kv.1 != lower kv.1)
-  | _ => false
-
-def DKnownFree (kind : DKind) (d : DSt) : List DOp → Bool
-  | [] => true
-  | op :: ops => !DKnown kind d op && DKnownFree kind (dstep kind d op).1 ops
-
-def DInv (d : DSt) : Prop := ∀ kv ∈ d, lower kv.1 = kv.1
 
 end LokiModel.C12
